@@ -296,6 +296,13 @@ func c14Selfcheck(res *engine.Result, sec *ref.PMTSection, reqs []c14Req) bool {
 
 // ---- RemoveElementaryStreams --------------------------------------------------------------------------
 
+// sentinels for "the slice Pids() of the very object returns" (whole, without its first, without its last entry)
+const (
+	c14OwnPids     = -1000
+	c14OwnPidsTail = -1001
+	c14OwnPidsHead = -1002
+)
+
 func c14Remove(res *engine.Result, payload []byte, sec *ref.PMTSection, pmtPID int) {
 	pids := c06PIDList(sec)
 	n := len(pids)
@@ -313,6 +320,8 @@ func c14Remove(res *engine.Result, payload []byte, sec *ref.PMTSection, pmtPID i
 		}
 	}
 	lists = append(lists, [][]int{nil}, [][]int{{0, pmtPID}})
+	// the object's own PID list handed back ("remove everything it lists"), whole and in part
+	lists = append(lists, [][]int{{c14OwnPids}}, [][]int{{c14OwnPidsTail}}, [][]int{{c14OwnPidsHead}})
 	if n > 0 {
 		lists = append(lists, [][]int{{pids[0], pids[0]}}, [][]int{{pids[n-1]}, {pids[n-1]}})
 	}
@@ -326,9 +335,24 @@ func c14Remove(res *engine.Result, payload []byte, sec *ref.PMTSection, pmtPID i
 		removed := map[int]bool{}
 		engine.Guard(res, "RemoveElementaryStreams", func() {
 			for _, l := range calls {
+				if len(l) == 1 && l[0] <= c14OwnPids {
+					own := pmt.Pids()
+					switch {
+					case l[0] == c14OwnPidsTail && len(own) > 0:
+						own = own[1:]
+					case l[0] == c14OwnPidsHead && len(own) > 0:
+						own = own[:len(own)-1]
+					}
+					l = own
+					for _, p := range own {
+						removed[p] = true
+					}
+				}
 				pmt.RemoveElementaryStreams(l)
 				for _, p := range l {
-					removed[p] = true
+					if p > c14OwnPids {
+						removed[p] = true
+					}
 				}
 			}
 		})
